@@ -344,6 +344,64 @@ func c16exec(j run.Job, a *run.Acc) {
 				a.Violate("value-differs", "value-differs", d)
 			default:
 				a.Count("values equal to encoding/json", 1)
+				if len(doc) > 1000 {
+					// a sample of corruptions of the big document (every-byte corruption would be quadratic): truncations,
+					// dangling / doubled separators and dropped separators at random places outside strings
+					inside := make([]bool, len(doc)+1)
+					in := false
+					var seps, closers []int
+					for k := 0; k < len(doc); k++ {
+						inside[k] = in
+						switch {
+						case in && doc[k] == '\\':
+							k++
+							if k < len(doc) {
+								inside[k] = true
+							}
+						case doc[k] == '"':
+							in = !in
+						case !in && (doc[k] == ',' || doc[k] == ':'):
+							seps = append(seps, k)
+						case !in && (doc[k] == ']' || doc[k] == '}'):
+							closers = append(closers, k)
+						}
+					}
+					var muts []string
+					for q := 0; q < 3; q++ {
+						muts = append(muts, doc[:r.Intn(len(doc))])
+						if len(closers) > 0 {
+							k := closers[r.Intn(len(closers))]
+							muts = append(muts, doc[:k]+","+doc[k:])
+						}
+						if len(seps) > 0 {
+							k := seps[r.Intn(len(seps))]
+							const numeric = "0123456789.+-eE"
+							if !(k > 0 && k+1 < len(doc) && strings.IndexByte(numeric, doc[k-1]) >= 0 && strings.IndexByte(numeric, doc[k+1]) >= 0) {
+								muts = append(muts, doc[:k]+doc[k+1:])
+							}
+							if doc[k] == ',' {
+								muts = append(muts, doc[:k]+","+doc[k:])
+							}
+						}
+					}
+					for _, m := range muts {
+						if _, jerr := jsonReference([]byte(m)); jerr == nil {
+							continue
+						}
+						a.Count("corruptions of big documents judged", 1)
+						got, perr, pan := jsonParsley(p, []byte(m), c16before(m))
+						if pan != "" || perr == nil {
+							dd := map[string]any{"document": trunc(m, 3000), "document_bytes": len(m), "original_bytes": len(doc)}
+							if pan != "" {
+								dd["panic"] = pan
+								a.Violate("panic-on-corrupt-document", "panic-on-corrupt-document", dd)
+							} else {
+								dd["parsley"] = trunc(fmt.Sprintf("%#v", got), 600)
+								a.Violate("corrupt-document-accepted", "corrupt-document-accepted", dd)
+							}
+						}
+					}
+				}
 				if strings.ContainsAny(doc, "[{") {
 					a.NonTrivial(doc)
 					a.Sample("valid", doc)
